@@ -307,7 +307,10 @@ func wrapExact(r *Rng, e *exactCase) *exactCase {
 			w.s2 = sdf.Transform2D(e.s2, m)
 			w.o2 = func(p v2.Vec) float64 { return e.o2(inv.mulPos(p)) }
 			w.desc = "Transform2D[" + d + "](" + e.desc + ")"
-			w.region = func(p []float64) string { q := inv.mulPos(v2.Vec{X: p[0], Y: p[1]}); return e.region([]float64{q.X, q.Y}) }
+			w.region = func(p []float64) string {
+				q := inv.mulPos(v2.Vec{X: p[0], Y: p[1]})
+				return e.region([]float64{q.X, q.Y})
+			}
 		}
 	case 2: // uniform scale
 		k := r.LogR(0.2, 5)
